@@ -39,7 +39,8 @@ func iterate(reader pebble.Reader, req *regattapb.RequestOp_Range) (iter.Seq[*re
 				panic(err)
 			}
 			if i == limit && limit != 0 {
-				response.More = piter.Next()
+				// The iterator is positioned on a valid pair beyond the limit, so there is more to read.
+				response.More = true
 				yield(response)
 				return
 			}
